@@ -215,7 +215,12 @@ pub fn gen(rng: &mut Rng, miri: bool) -> ASet {
     let nsets = if miri { rng.range(0, 2) } else { rng.range(0, 12) };
     let mut sets = Vec::new();
     for _ in 0..nsets {
-        let label = if rng.chance(1, 4) { None } else { Some(format!("AS_{}", gen_ident(rng, 6))) };
+        let label = match rng.below(8) {
+            0 | 1 => None,
+            2 => Some(String::new()), // present but empty
+            3 => Some("AS_shared".to_string()), // the same label on several sets
+            _ => Some(format!("AS_{}", gen_ident(rng, 6))),
+        };
         let mut s = empty_set(label);
         match rng.below(7) {
             0 => {}
@@ -276,6 +281,14 @@ pub fn run(cx: &mut Ctx) {
         b.sets.push(full);
         b.sets.push(empty_set(Some("A".into())));
         check(c, &b, "empty_and_full_sets");
+        // a label that is present but empty, first and in the middle
+        let mut e = base.clone();
+        e.sets.push(empty_set(Some(String::new())));
+        let mut one = empty_set(None);
+        one[5] = Some(String::new());
+        e.sets.push(one);
+        e.sets.push(empty_set(Some(String::new())));
+        check(c, &e, "empty_string_labels");
     });
     let step = if miri { 37 } else { 1 };
     for slot in (0..256).step_by(step) {
